@@ -151,6 +151,8 @@ pub struct HistInner {
     pub conn_results: [Option<Result<(), ErrFacts>>; 2],
     /// step at which the server application obtained each stream from accept()
     pub accept_step: BTreeMap<u32, u64>,
+    /// step at which the client application obtained the response of each pushed stream
+    pub pushed_taken_step: BTreeMap<u32, u64>,
     /// abrupt_shutdown(code) calls: (side, code, step)
     pub abrupt: Vec<(u8, u32, u64)>,
     pub graceful: Vec<(u8, u64)>,
